@@ -330,6 +330,14 @@ type SMTCtx struct {
 	usesF     bool
 	usesStrLt bool
 	inQuant   int // >0 while building the body of a quantifier: no side assertions, no naming
+	qvars     map[string]string // bound-variable symbol -> sort (for sum summands under enclosing binders)
+}
+
+func (c *SMTCtx) noteQVar(sym, sortv string) {
+	if c.qvars == nil {
+		c.qvars = map[string]string{}
+	}
+	c.qvars[sym] = sortv
 }
 
 func NewSMTCtx() *SMTCtx {
